@@ -14,10 +14,11 @@ def call(logic, K, f, naming='int', how=0, containers='list', form='obj', F=None
     Returns ('set', mask) | ('exc', class name, message) | ('bad', description).
     """
     L = fm.lang(logic)
-    if atoms is not None and fm.atom_map(atoms):
+    amap = atoms if isinstance(atoms, dict) else (fm.atom_map(atoms) if atoms is not None else None)
+    if amap:
         # the library sees the same structure and formula with the atoms spelled differently
-        K = km.rename_labels(K, fm.atom_map(atoms))
-        f = fm.rename_atoms(f, fm.atom_map(atoms))
+        K = km.rename_labels(K, amap)
+        f = fm.rename_atoms(f, amap)
     nm = graphs.NAMINGS[naming]
     back = dict((nm(i), i) for i in range(K['n']))
     if kripke is None:
